@@ -19,7 +19,6 @@ package affiliation
 import (
 	"go/ast"
 	"go/types"
-	"strings"
 
 	"go.uber.org/nilaway/annotation"
 	"go.uber.org/nilaway/config"
@@ -248,7 +247,7 @@ func (a *Affiliation) computeTriggersForTypes(lhsType types.Type, rhsType types.
 
 	// Don't process if the affiliation is already analyzed in upstream packages' upstreamCache or
 	// the current package's upstreamCache.
-	key := computeAfflitiationCacheKey(lhsObj, rhsObj)
+	key := computeAfflitiationCacheKey(lhsType, rhsObj)
 	if upstreamCache.Value(key) {
 		return nil
 	}
@@ -274,31 +273,19 @@ func (a *Affiliation) computeTriggersForTypes(lhsType types.Type, rhsType types.
 }
 
 func getFullyQualifiedName(t types.Type) string {
-	s := ""
-	switch n := t.(type) {
+	switch n := types.Unalias(t).(type) {
 	case *types.Named:
-		s = n.String()
+		return n.String()
 	case *types.Interface:
-		// interface has no exported field/method that can be used to get its fully qualified path directly. However,
-		// its declared methods (*types.Func) have such exported methods. Therefore, the below logic extracts the
-		// interface's fully qualified path from its method's FullName()
-		if n.NumMethods() > 0 {
-			s = n.Method(0).FullName()
-			// funcName.FullName() returns a string of the form "(/path/to/interface).funcName". The below code strips
-			// off the method name and parentheses to get only "/path/to/interface"
-			i := strings.LastIndex(s, ".")
-			if i > -1 {
-				s = s[:i]
-			}
-			s = strings.ReplaceAll(s, "(", "")
-			s = strings.ReplaceAll(s, ")", "")
-		}
+		// An unnamed interface type (e.g., `interface{ M() *int }`) has no path of its own, so we
+		// use its full type string, which lists its complete method set.
+		return n.String()
 	}
-	return s
+	return ""
 }
 
-func computeAfflitiationCacheKey(interfaceObj *types.Interface, concreteObj *types.Named) Pair {
-	interfaceObjFQ := getFullyQualifiedName(interfaceObj)
+func computeAfflitiationCacheKey(interfaceType types.Type, concreteObj *types.Named) Pair {
+	interfaceObjFQ := getFullyQualifiedName(interfaceType)
 	concreteObjFQ := getFullyQualifiedName(concreteObj)
 	return Pair{
 		ImplementedID: concreteObjFQ,
